@@ -97,6 +97,7 @@ fn compile(text: &str) -> Result<(Model, LinearModel), (String, String)> {
 
 /// rows of a rendered linear model for the Coq tie: sign pattern of the non-zero coefficients + tokens of the printed left-hand side
 fn row_cases(l: &LinearModel, text: &str, rep: &mut Report, out: &mut Vec<(String, String)>) {
+    if harness::report::probe_active() { return; }   // the probes of recorded findings carry names the tokeniser of the tie does not read
     let lines: Vec<&str> = text.lines().collect();
     let start = match lines.iter().position(|x| x.trim() == "s.t.") { Some(i) => i + 1, None => return };
     for (k, c) in l.constraints().iter().enumerate() {
@@ -357,6 +358,21 @@ fn main() {
         let m = match front.parse_and_transform(vec![], &IndexMap::new()) { Ok(m) => m, Err(_) => { rep.count(&format!("{s}.generated_source_does_not_transform")); continue; } };
         rep.count(&format!("{s}.programs"));
         if i % 101 == 0 { rep.sample(json!({"model_text": m.to_string()}), 12); } check_model(&m, &mut rep, s); }
+    // (a'') the witnesses of the recorded findings F65-F69 about generated names and empty aggregates, each under the class of its finding
+    let probes: [(&str, &str); 5] = [
+        ("negative-index-in-generated-name", "max sum(i in 0..3) { x_{i - 1} }\ns.t.\n    x_{i - 1} <= 3 for i in 0..3\ndefine\n    x_{i - 1} as NonNegativeReal for i in 0..3"),
+        ("free-form-string-index-in-generated-name", "max sum(s in S) { x_s }\ns.t.\n    x_s <= 3 for s in S\nwhere\n    let S = [\"a b\", \"1a\", \"c-d\"]\ndefine\n    x_s as NonNegativeReal for s in S"),
+        ("empty-scoped-logic-aggregate", "max x\ns.t.\n    x <= 3\n    any(i in 0..0) { b_i } or c\n    all(i in 0..0) { b_i }\ndefine\n    x as NonNegativeReal\n    c as Boolean\n    b_i as Boolean for i in 0..2"),
+        ("node-named-like-a-builtin-constant", "max sum(v in nodes(G)) { x_v }\ns.t.\n    lim_v: x_v <= 3 for v in nodes(G)\nwhere\n    let G = Graph { PI -> [ Q ], Q -> [ PI ] }\ndefine\n    x_v as NonNegativeReal for v in nodes(G)"),
+        ("fractional-index-in-generated-name", "max sum(i in 1..3) { x_{i / 2} }\ns.t.\n    x_{i / 2} <= 3 for i in 1..3\ndefine\n    x_{i / 2} as NonNegativeReal for i in 1..3"),
+    ];
+    for (cls, src) in probes.iter() {
+        let front = RoocParser::new(src.to_string());
+        match front.parse_and_transform(vec![], &IndexMap::new()) {
+            Ok(m) => { rep.count("probe.programs"); harness::report::set_probe_class(Some(cls)); check_model(&m, &mut rep, "probe"); harness::report::set_probe_class(None); }
+            Err(_) => rep.count("probe.source_does_not_compile"),
+        }
+    }
     // (b') linear models with wide coefficient magnitudes, generated names, every domain form
     for i in 0..n { let lm = wide_linear(&mut r); if i % 101 == 0 { rep.sample(json!({"linear_text": lm.to_string()}), 16); } 
         // the direct model's text must compile to the same model; the fixed point is then asked of that compiled model
